@@ -1,5 +1,11 @@
 import MgpuProofs.C09CUBasic
-/-! # C09, emulation compute unit — the invariant behind "every MapWGReq is answered exactly once" -/
+/-! # C09, emulation compute unit — the invariants behind "every MapWGReq is answered exactly once"
+
+`handleWGCompleteEvent` as repaired by 776c38a7: an id is moved from `cu.wfs` to
+`finishedMapWGReqs` only by the event that finds its work-group still mapped. Hence the
+bookkeeping invariant `NInv` (mapped / finished / sent are pairwise disjoint, duplicate-free and
+together exactly the requests taken) holds **whatever the order in which events fire**; the time
+order is needed only for progress (`ETime`, file `C09CUEmuStep.lean`). -/
 namespace C09.CUSide
 
 /-- ids of the pending WGCompleteEvents -/
@@ -7,126 +13,186 @@ def wids (s : Emu) : List Nat := s.wgcs.map (·.2)
 /-- all ids of all messages sent so far -/
 def flat (s : Emu) : List Nat := s.sent.flatten
 
-structure EInv (s : Emu) : Prop where
-  P_pos : 0 < s.P
-  t_tick : ∀ t ∈ s.ticks, s.now ≤ t
-  t_emu : ∀ t ∈ s.emus, s.now ≤ t
-  t_wgc : ∀ p ∈ s.wgcs, s.now ≤ p.1
-  got_nd : s.got.Nodup
-  in_nd : s.inbuf.Nodup
-  in_fresh : ∀ x ∈ s.inbuf, x ∉ s.got
-  q_wfs : ∀ x ∈ s.queue, x ∈ s.wfs
-  wfs_got : ∀ x ∈ s.wfs, x ∈ s.got
-  fin_got : ∀ x ∈ s.finished, x ∈ s.got
-  sent_got : ∀ x ∈ flat s, x ∈ s.got
-  wid_got : ∀ p ∈ s.wgcs, p.2 ∈ s.got
-  q_nd : s.queue.Nodup
-  wfs_nd : s.wfs.Nodup
-  fin_nd : s.finished.Nodup
-  wid_nd : (wids s).Nodup
-  sent_nd : (flat s).Nodup
-  wfs_fin : ∀ x ∈ s.wfs, x ∉ s.finished
-  wfs_sent : ∀ x ∈ s.wfs, x ∉ flat s
-  fin_sent : ∀ x ∈ s.finished, x ∉ flat s
-  q_wid : ∀ x ∈ s.queue, x ∉ wids s
-  wgc_ok : ∀ p ∈ s.wgcs, p.2 ∉ flat s ∧ (p.2 ∈ s.wfs ∨ p.2 ∈ s.finished)
-  wfs_cov : ∀ x ∈ s.wfs, x ∈ s.queue ∨ x ∈ wids s
-  q_emu : s.queue ≠ [] → s.emus ≠ []
-  nt_emu : s.now < s.nextTick → s.nextTick ∈ s.emus
-  fin_cov : s.finished ≠ [] → s.wfs ≠ [] ∨ ∃ p ∈ s.wgcs, p.2 ∉ s.wfs
-  got_cov : ∀ x ∈ s.got, x ∈ s.wfs ∨ x ∈ s.finished ∨ x ∈ flat s
-  emu_sec : ∀ t ∈ s.emus, s.P ∣ t
-  r_soon : ∀ p ∈ s.wgcs, p.2 ∉ s.wfs → p.1 ≤ s.now + 1
-  r_first : ∀ p ∈ s.wgcs, p.2 ∉ s.wfs → ∀ q ∈ s.wgcs, q.2 ∈ s.wfs → p.1 < q.1
-  r_emu : ∀ p ∈ s.wgcs, p.2 ∉ s.wfs → s.queue ≠ [] → ∀ e ∈ s.emus, p.1 ≤ e
-  r_one : ∀ p ∈ s.wgcs, p.2 ∉ s.wfs → ∀ q ∈ s.wgcs, q.2 ∉ s.wfs → p = q
+/-! ## what the environment may do -/
 
-/-- the hypotheses on the environment: MapWGReq ids are fresh (Akita's id generator), events are
-    fired in time order with ANY tie-break, and no MapWGReq is taken by a Tick that falls exactly
-    on a whole second -/
+/-- MapWGReq ids are fresh (Akita's id generator), events are fired in time order with ANY
+    tie-break, and (hypothesis H, needed only before the repair) no MapWGReq is taken by a Tick
+    that falls exactly on a whole second -/
 def EOk (s : Emu) : EOp → Prop
   | .deliver id => id ∉ s.got ∧ id ∉ s.inbuf
   | .tick t => Legal s (.tick t) ∧ (s.inbuf ≠ [] → ¬ s.P ∣ t)
   | o => Legal s o
 
-theorem einv_init (P incap outcap : Nat) (hP : 0 < P) : EInv (einit P incap outcap) := by
-  constructor <;> simp [einit, wids, flat, hP]
+/-- fresh ids and time order (any tie-break), WITHOUT the whole-second hypothesis -/
+def EOkNoH (s : Emu) : EOp → Prop
+  | .deliver id => id ∉ s.got ∧ id ∉ s.inbuf
+  | o => Legal s o
 
-/-- the invariant does not read the port buffers and the tick bookkeeping, except that pending
-    ticks are not in the past -/
-theorem einv_frame {s s' : Emu} (h : EInv s)
-    (hP : s'.P = s.P) (hnow : s'.now = s.now) (hnt : s'.nextTick = s.nextTick) (hin : s'.inbuf = s.inbuf)
+/-- fresh ids, events fired in ANY order (only pending events fire), no MapWGReq taken at a whole second -/
+def EOkAnyOrder (s : Emu) : EOp → Prop
+  | .deliver id => id ∉ s.got ∧ id ∉ s.inbuf
+  | .tick t => t ∈ s.ticks ∧ (s.inbuf ≠ [] → ¬ s.P ∣ t)
+  | .emu t => t ∈ s.emus
+  | .wgc t id => (t, id) ∈ s.wgcs
+  | _ => True
+
+/-- the weakest environment: fresh ids, and a WGCompleteEvent fires only if it is pending. Ticks and
+    emulation events may fire at any time, in any order, even spuriously. -/
+def EOkLoose (s : Emu) : EOp → Prop
+  | .deliver id => id ∉ s.got ∧ id ∉ s.inbuf
+  | .wgc t id => (t, id) ∈ s.wgcs
+  | _ => True
+
+instance (s : Emu) (o : EOp) : Decidable (EOk s o) := by
+  cases o <;> simp only [EOk] <;> infer_instance
+instance (s : Emu) (o : EOp) : Decidable (EOkNoH s o) := by
+  cases o <;> simp only [EOkNoH] <;> infer_instance
+instance (s : Emu) (o : EOp) : Decidable (EOkAnyOrder s o) := by
+  cases o <;> simp only [EOkAnyOrder] <;> infer_instance
+instance (s : Emu) (o : EOp) : Decidable (EOkLoose s o) := by
+  cases o <;> simp only [EOkLoose] <;> infer_instance
+
+theorem eok_noH {s : Emu} {o : EOp} (h : EOk s o) : EOkNoH s o := by
+  cases o <;> simp only [EOk, EOkNoH] at h ⊢ <;> first | exact h.1 | exact h
+
+theorem eokNoH_legal {s : Emu} {o : EOp} (h : EOkNoH s o) : Legal s o := by
+  cases o <;> simp only [EOkNoH, Legal] at h ⊢ <;> first | trivial | exact h
+
+theorem eok_legal {s : Emu} {o : EOp} (h : EOk s o) : Legal s o := eokNoH_legal (eok_noH h)
+
+theorem eokNoH_loose {s : Emu} {o : EOp} (h : EOkNoH s o) : EOkLoose s o := by
+  cases o <;> simp only [EOkNoH, EOkLoose, Legal] at h ⊢ <;> first | trivial | exact h.1 | exact h
+
+theorem eokAnyOrder_loose {s : Emu} {o : EOp} (h : EOkAnyOrder s o) : EOkLoose s o := by
+  cases o <;> simp only [EOkAnyOrder, EOkLoose] at h ⊢ <;> first | trivial | exact h
+
+/-- every op of the run is allowed in the state it is applied to -/
+def RunOk (ok : Emu → EOp → Prop) : Emu → List EOp → Prop
+  | _, [] => True
+  | s, o :: os => ok s o ∧ RunOk ok (estep s o) os
+
+instance (ok : Emu → EOp → Prop) [∀ s o, Decidable (ok s o)] : ∀ (s : Emu) (ops : List EOp), Decidable (RunOk ok s ops)
+  | _, [] => isTrue trivial
+  | s, o :: os =>
+    have := instDecidableRunOk ok (estep s o) os
+    inferInstanceAs (Decidable (ok s o ∧ RunOk ok (estep s o) os))
+
+/-- the same for the machine before the repair (`estepOld`) -/
+def RunOkOld (ok : Emu → EOp → Prop) : Emu → List EOp → Prop
+  | _, [] => True
+  | s, o :: os => ok s o ∧ RunOkOld ok (estepOld s o) os
+
+instance (ok : Emu → EOp → Prop) [∀ s o, Decidable (ok s o)] : ∀ (s : Emu) (ops : List EOp), Decidable (RunOkOld ok s ops)
+  | _, [] => isTrue trivial
+  | s, o :: os =>
+    have := instDecidableRunOkOld ok (estepOld s o) os
+    inferInstanceAs (Decidable (ok s o ∧ RunOkOld ok (estepOld s o) os))
+
+theorem runOk_mono {ok ok' : Emu → EOp → Prop} (hm : ∀ s o, ok s o → ok' s o) :
+    ∀ (s : Emu) (ops : List EOp), RunOk ok s ops → RunOk ok' s ops
+  | _, [], _ => trivial
+  | s, o :: os, h => ⟨hm s o h.1, runOk_mono hm (estep s o) os h.2⟩
+
+/-! ## the bookkeeping invariant (no time in it) -/
+
+structure NCore (s : Emu) : Prop where
+  got_nd : s.got.Nodup
+  in_nd : s.inbuf.Nodup
+  in_fresh : ∀ x ∈ s.inbuf, x ∉ s.got
+  q_wfs : ∀ x ∈ s.queue, x ∈ s.wfs
+  q_wid : ∀ x ∈ s.queue, x ∉ wids s
+  wfs_got : ∀ x ∈ s.wfs, x ∈ s.got
+  fin_got : ∀ x ∈ s.finished, x ∈ s.got
+  sent_got : ∀ x ∈ flat s, x ∈ s.got
+  wid_got : ∀ p ∈ s.wgcs, p.2 ∈ s.got
+  wfs_nd : s.wfs.Nodup
+  fin_nd : s.finished.Nodup
+  sent_nd : (flat s).Nodup
+  wfs_fin : ∀ x ∈ s.wfs, x ∉ s.finished
+  wfs_sent : ∀ x ∈ s.wfs, x ∉ flat s
+  fin_sent : ∀ x ∈ s.finished, x ∉ flat s
+  wfs_cov : ∀ x ∈ s.wfs, x ∈ s.queue ∨ x ∈ wids s
+  got_cov : ∀ x ∈ s.got, x ∈ s.wfs ∨ x ∈ s.finished ∨ x ∈ flat s
+
+/-- finished ids wait for a mapped work-group to complete or for a retry event -/
+def FinCov (s : Emu) : Prop := s.finished ≠ [] → s.wfs ≠ [] ∨ s.wgcs ≠ []
+
+structure NInv (s : Emu) : Prop where
+  core : NCore s
+  fin_cov : FinCov s
+
+theorem ninv_init (P incap outcap : Nat) : NInv (einit P incap outcap) := by
+  refine ⟨?_, ?_⟩
+  · constructor <;> simp [einit, wids, flat]
+  · intro h; simp [einit] at h
+
+/-- the invariant reads only the incoming buffer, the queue, `wfs`, `finishedMapWGReqs`, the
+    pending completion events, the messages sent and the requests taken -/
+theorem ncore_frame {s s' : Emu} (h : NCore s) (hin : s'.inbuf = s.inbuf)
     (hq : s'.queue = s.queue) (hw : s'.wfs = s.wfs) (hf : s'.finished = s.finished)
-    (he : s'.emus = s.emus) (hwg : s'.wgcs = s.wgcs) (hs : s'.sent = s.sent) (hg : s'.got = s.got)
-    (ht : ∀ t ∈ s'.ticks, s.now ≤ t) : EInv s' := by
+    (hwg : s'.wgcs = s.wgcs) (hs : s'.sent = s.sent) (hg : s'.got = s.got) : NCore s' := by
   cases s; cases s'
-  simp only at hP hnow hnt hin hq hw hf he hwg hs hg ht
-  subst hP hnow hnt hin hq hw hf he hwg hs hg
-  exact ⟨h.P_pos, ht, h.t_emu, h.t_wgc, h.got_nd, h.in_nd, h.in_fresh, h.q_wfs, h.wfs_got, h.fin_got,
-    h.sent_got, h.wid_got, h.q_nd, h.wfs_nd, h.fin_nd, h.wid_nd, h.sent_nd, h.wfs_fin, h.wfs_sent,
-    h.fin_sent, h.q_wid, h.wgc_ok, h.wfs_cov, h.q_emu, h.nt_emu, h.fin_cov, h.got_cov, h.emu_sec,
-    h.r_soon, h.r_first, h.r_emu, h.r_one⟩
+  simp only at hin hq hw hf hwg hs hg
+  subst hin hq hw hf hwg hs hg
+  exact ⟨h.got_nd, h.in_nd, h.in_fresh, h.q_wfs, h.q_wid, h.wfs_got, h.fin_got, h.sent_got, h.wid_got,
+    h.wfs_nd, h.fin_nd, h.sent_nd, h.wfs_fin, h.wfs_sent, h.fin_sent, h.wfs_cov, h.got_cov⟩
 
-/-- `TickLater` only adds a tick one cycle later -/
-theorem einv_tickLater {s : Emu} (h : EInv s) : EInv (tickLater s) := by
-  have key : ∀ t ∈ s.ticks ++ [s.now + 1], s.now ≤ t := by
-    intro t ht
-    rcases List.mem_append.mp ht with ht | ht
-    · exact h.t_tick t ht
-    · simp at ht; omega
+theorem ninv_frame {s s' : Emu} (h : NInv s) (hin : s'.inbuf = s.inbuf)
+    (hq : s'.queue = s.queue) (hw : s'.wfs = s.wfs) (hf : s'.finished = s.finished)
+    (hwg : s'.wgcs = s.wgcs) (hs : s'.sent = s.sent) (hg : s'.got = s.got) : NInv s' := by
+  refine ⟨ncore_frame h.core hin hq hw hf hwg hs hg, ?_⟩
+  unfold FinCov
+  rw [hf, hw, hwg]
+  exact h.fin_cov
+
+theorem nodup_snoc {l : List Nat} {a : Nat} (h : l.Nodup) (ha : a ∉ l) : (l ++ [a]).Nodup := by
+  rw [List.nodup_append]
+  exact ⟨h, by simp, by intro x hx b hb hab; simp at hb; subst hab; subst hb; exact ha hx⟩
+
+theorem mem_snoc {l : List Nat} {a x : Nat} : x ∈ l ++ [a] ↔ x ∈ l ∨ x = a := by simp
+
+theorem ninv_tickLater {s : Emu} (h : NInv s) : NInv (tickLater s) := by
   unfold tickLater
   dsimp only
   split
   · split
     · exact h
-    · exact einv_frame h rfl rfl rfl rfl rfl rfl rfl rfl rfl rfl rfl key
-  · exact einv_frame h rfl rfl rfl rfl rfl rfl rfl rfl rfl rfl rfl key
+    · exact ninv_frame h rfl rfl rfl rfl rfl rfl rfl
+  · exact ninv_frame h rfl rfl rfl rfl rfl rfl rfl
 
-theorem einv_fill {s : Emu} (h : EInv s) : EInv (fill s).1 := by
+theorem ninv_fill {s : Emu} (h : NInv s) : NInv (fill s).1 := by
   unfold fill
   split
   · exact h
-  · exact einv_frame h rfl rfl rfl rfl rfl rfl rfl rfl rfl rfl rfl h.t_tick
+  · exact ninv_frame h rfl rfl rfl rfl rfl rfl rfl
 
-theorem einv_take {s : Emu} (h : EInv s) : EInv (take s).1 := by
+theorem ninv_take {s : Emu} (h : NInv s) : NInv (take s).1 := by
   unfold take
   split
   · exact h
-  · have h' : EInv { s with out := ‹List (List Nat)› } :=
-      einv_frame h rfl rfl rfl rfl rfl rfl rfl rfl rfl rfl rfl h.t_tick
+  · have h' : NInv { s with out := ‹List (List Nat)› } := ninv_frame h rfl rfl rfl rfl rfl rfl rfl
     dsimp only
     split
-    · exact einv_tickLater h'
+    · exact ninv_tickLater h'
     · exact h'
 
-theorem einv_deliver {s : Emu} (h : EInv s) (id : Nat) (hok : EOk s (.deliver id)) :
-    EInv (deliver s id).1 := by
-  obtain ⟨hg, hi⟩ := hok
+theorem ninv_deliver {s : Emu} (h : NInv s) (id : Nat) (hg : id ∉ s.got) (hi : id ∉ s.inbuf) :
+    NInv (deliver s id).1 := by
   unfold deliver
   split
   · exact h
-  · have h' : EInv { s with inbuf := s.inbuf ++ [id] } := by
-      have h0 := h
-      cases s
-      simp only at hg hi ⊢
-      exact ⟨h.P_pos, h.t_tick, h.t_emu, h.t_wgc, h.got_nd,
-        by
-          have := h.in_nd
-          simp only at this
-          rw [List.nodup_append]
-          exact ⟨this, by simp, by intro a ha b hb hab; simp at hb; subst hab; subst hb; exact hi ha⟩,
-        by
-          intro x hx
-          rcases List.mem_append.mp hx with hx | hx
-          · exact h.in_fresh x hx
-          · simp at hx; subst hx; exact hg,
-        h.q_wfs, h.wfs_got, h.fin_got,
-        h.sent_got, h.wid_got, h.q_nd, h.wfs_nd, h.fin_nd, h.wid_nd, h.sent_nd, h.wfs_fin, h.wfs_sent,
-        h.fin_sent, h.q_wid, h.wgc_ok, h.wfs_cov, h.q_emu, h.nt_emu, h.fin_cov, h.got_cov, h.emu_sec,
-        h.r_soon, h.r_first, h.r_emu, h.r_one⟩
+  · have h' : NInv { s with inbuf := s.inbuf ++ [id] } := by
+      have c := h.core
+      refine ⟨⟨c.got_nd, nodup_snoc c.in_nd hi, ?_, c.q_wfs, c.q_wid, c.wfs_got, c.fin_got, c.sent_got,
+        c.wid_got, c.wfs_nd, c.fin_nd, c.sent_nd, c.wfs_fin, c.wfs_sent, c.fin_sent, c.wfs_cov, c.got_cov⟩,
+        h.fin_cov⟩
+      intro x hx
+      rcases mem_snoc.mp hx with hx | hx
+      · exact c.in_fresh x hx
+      · rw [hx]; exact hg
     dsimp only
     split
-    · exact einv_tickLater h'
+    · exact ninv_tickLater h'
     · exact h'
 
 end C09.CUSide
